@@ -417,6 +417,25 @@ def _between_plumbing(fn: ast.FunctionDef) -> Optional[Dict[str, Dict[str, str]]
     return None
 
 
+def _expand_props(M, cls: str, e: ast.AST, depth: int = 2) -> ast.AST:
+    """`self.p` with p a read-only @property of the class whose body is one `return <expression over self>` is that expression
+    (HoldList.tail_offset is self.offset + self.length; head_offset is self.offset)"""
+    import copy as _copy
+
+    class X(ast.NodeTransformer):
+        def visit_Attribute(self, n):
+            n = self.generic_visit(n)
+            if isinstance(n.value, ast.Name) and n.value.id == "self" and isinstance(n.ctx, ast.Load) and depth > 0:
+                q = M.method(cls, n.attr)
+                f = M.funcs.get(q) if q else None
+                if f is not None and any(unparse(d) == "property" for d in f.node.decorator_list):
+                    body = [b for b in f.node.body if not (isinstance(b, ast.Expr) and isinstance(b.value, ast.Constant))]
+                    if len(body) == 1 and isinstance(body[0], ast.Return) and body[0].value is not None:
+                        return _expand_props(M, cls, _copy.deepcopy(body[0].value), depth - 1)
+            return n
+    return X().visit(_copy.deepcopy(e))
+
+
 def rule_r6(ctx) -> List[R.Inst]:
     M = ctx.M
     insts = []
@@ -429,7 +448,7 @@ def rule_r6(ctx) -> List[R.Inst]:
         for flags in P.all_flag_values(flagnames):
             key = f"{c.split('.')[-1]}.{name}[{','.join(f'{k}={int(v)}' for k, v in flags.items())}]"
             try:
-                e = P.returned_expr(fn.node, flags)
+                e = _expand_props(M, c, P.returned_expr(fn.node, flags))
                 terms, op, rhs = P.filter_shape(e)
             except C.Unknown as ex:
                 insts.append(R.undec("C16.R6", key, file, line, str(ex)))
